@@ -362,7 +362,7 @@ func genCase(r *Rng, extreme bool) Input {
 	mode := r.Intn(5)
 	for i := 0; i < n; i++ {
 		v := Val{Tok: genTokens(r, mode), Undel: "0"}
-		if r.Chance(1, 10) {
+		if r.Chance(1, 14) {
 			v.Late = true
 		} else {
 			if r.Chance(1, 10) {
@@ -402,7 +402,7 @@ func genCase(r *Rng, extreme bool) Input {
 	if extreme && r.Chance(1, 3) {
 		in.Params.Thr = decLimit().String()
 	}
-	in.Params.MinV = []uint64{1, 1, 1, 2, 2, 3, 4, uint64(n + 1)}[r.Intn(8)]
+	in.Params.MinV = []uint64{1, 1, 1, 1, 1, 2, 2, 3, 4, uint64(n + 1)}[r.Intn(10)]
 	in.Params.Exp = []uint64{0, 1, 3, 5, 10, 100, 900}[r.Intn(7)]
 	in.Params.Band = []string{"0", "20000000000000000", "20000000000000000", "500000000000000000", "1000000000000000000", "1"}[r.Intn(6)]
 	// height: mostly a period end
@@ -416,7 +416,7 @@ func genCase(r *Rng, extreme bool) Input {
 	}
 	// whitelist
 	for p := 0; p < nPairs; p++ {
-		if r.Chance(3, 5) {
+		if r.Chance(4, 5) {
 			in.WL = append(in.WL, p)
 		}
 	}
@@ -446,12 +446,12 @@ func genCase(r *Rng, extreme bool) Input {
 		voters = n + r.Range(1, 2) // strangers
 	}
 	for v := 0; v < voters; v++ {
-		if r.Chance(1, 8) {
+		if r.Chance(1, 12) {
 			continue // no vote at all
 		}
 		vt := Vote{Voter: v, T: []Tuple{}}
 		for _, p := range activePairs {
-			switch r.Pick(18, 12, 70) {
+			switch r.Pick(10, 12, 78) {
 			case 0:
 			case 1:
 				vt.T = append(vt.T, Tuple{P: p, R: genAbstain(r)})
